@@ -816,3 +816,55 @@ def public_master(ctx):
                                     'the "public master" handed to cosigners / exported for a watch-only wallet is the unstripped private key object')
                 ctx.saw('%s, private %s key, multisig=%s, witness_type=%s -> %s' % (meth, ktype, ms, wt, sorted(set('%s %s' % (e.kind, show(term(e.value))[:40]) for e in exits))))
     ctx.floor(n, 16, 'public-master scenarios')
+
+
+@PROP.obligation('C16.public-stays-public', canaries=[
+    mut.Canary('renaming a public copy re-attaches the database row', 'wallets', lambda tree: _mut_reattach(tree)),
+])
+def public_stays_public(ctx):
+    """WalletKey.public() hands out a copy whose private-bearing attributes are cleared (`_dbkey = None`, `key_private = None`). Apart from
+    the constructor, no method of WalletKey assigns one of those attributes from a database row (a DbKey row carries the private bytes
+    and the private WIF): a setter that "repairs" a missing row would put the private key back into the object that was handed out as
+    public, where vars() / copy / pickle find it."""
+    m = ctx.repo.mod('wallets')
+    cls = m.classes.get('WalletKey')
+    if cls is None:
+        ctx.undecided('class WalletKey vanished')
+    pub = [f for f in cls.body if isinstance(f, ast.FunctionDef) and f.name == 'public']
+    if len(pub) != 1:
+        ctx.undecided('WalletKey.public not found')
+    cleared = set()
+    for a in ast.walk(pub[0]):
+        if isinstance(a, ast.Assign) and isinstance(a.value, ast.Constant) and a.value.value in (None, '', b'', False):
+            for t in a.targets:
+                if isinstance(t, ast.Attribute) and isinstance(t.value, ast.Name) and t.value.id != 'self':
+                    cleared.add(t.attr)
+    ctx.saw('attributes WalletKey.public() clears on the copy: %s' % sorted(cleared))
+    ctx.floor(len(cleared), 2, 'cleared attributes')
+    n = 0
+    for f in cls.body:
+        if not isinstance(f, ast.FunctionDef) or f.name in ('__init__', 'public'):
+            continue
+        for a in ast.walk(f):
+            if not isinstance(a, ast.Assign):
+                continue
+            for t in a.targets:
+                if isinstance(t, ast.Attribute) and isinstance(t.value, ast.Name) and t.value.id == 'self' and t.attr in cleared:
+                    n += 1
+                    from_db = any(isinstance(c, ast.Call) and isinstance(c.func, ast.Attribute) and c.func.attr == 'query' and c.args and 'DbKey' in norm(c.args[0]) for c in ast.walk(a.value))
+                    ctx.saw('WalletKey.%s assigns self.%s = %s' % (f.name, t.attr, norm(a.value)[:60]))
+                    if from_db:
+                        ctx.violate('wallets:WalletKey.%s' % f.name, 'self.%s, which public() clears, is filled again from a database row (`%s`)' % (t.attr, norm(a.value)[:70]), a,
+                                    'pm = wallet.public_master(); pm.name = "x" leaves the DbKey row with its private bytes and xprv in vars(pm) and in every copy of the public key object')
+    ctx.saw('%d assignments to cleared attributes outside the constructor' % n)
+
+
+def _mut_reattach(tree):
+    for cls in tree.body:
+        if isinstance(cls, ast.ClassDef) and cls.name == 'WalletKey':
+            for f in cls.body:
+                if isinstance(f, ast.FunctionDef) and f.name == 'name' and any(isinstance(d, ast.Attribute) and d.attr == 'setter' for d in f.decorator_list):
+                    new = ast.parse("if self._dbkey is None:\n    self._dbkey = self.session.query(DbKey).filter_by(id=self.key_id).first()").body
+                    f.body = f.body[:1] + new + f.body[1:]
+                    return True
+    return False
